@@ -6,6 +6,7 @@
 -/
 import IbicusModel.Lemmas.C06Isimip
 import IbicusModel.Lemmas.C06Years
+import Mathlib.Tactic.Ring
 
 namespace Lemmas.C06
 open Model.Stats Model.Isimip Lemmas.Stats
@@ -97,6 +98,20 @@ theorem detr_perm (c : Cfg) (sig : Bool) {xs xs' : List Dated} (h : xs.Perm xs')
   unfold detr
   rw [trendOf_perm c sig h]
   exact h.map _
+
+/-- when the regression is not significant (or the significance test is switched off) nothing is removed -/
+theorem trendOf_not_significant (c : Cfg) (xs : List Dated) (y : Int) : trendOf c false xs y = 0 := by
+  unfold trendOf annualTrend
+  simp only [Bool.false_and, Bool.false_eq_true, if_false, List.map_map]
+  rw [List.getD_eq_getElem?_getD, List.getElem?_map]
+  cases (uniqueYears (xs.map Prod.snd))[(uniqueYears (xs.map Prod.snd)).idxOf y]? <;> rfl
+
+theorem detr_not_significant (c : Cfg) (xs : List Dated) : detr c false xs = xs.map Prod.fst := by
+  unfold detr
+  apply List.map_congr_left
+  intro p _
+  rw [trendOf_not_significant]
+  ring
 
 /-! ### `_apply_on_window` with detrending on dated samples (no bound / threshold pair: no random draws) -/
 
